@@ -1,9 +1,99 @@
-(* Properties/C05.v -- Selectors match and weigh elements as the Selectors spec defines. *)
-From Verif Require Import Css.Sel Css.SelProofs.
-From Coq Require Import ZArith.
-Open Scope Z_scope.
+(* Properties/C05.v -- Selectors match and weigh elements as the Selectors spec defines.
+   Only statements, closed by `exact`, each followed by Print Assumptions.
+   Model: Css/Sel.v (port of /repo/css/selector Match / Specificity), Css/SelParse.v
+   (parser.go), Css/SelPrint.v (serialize.go).  Specification: Css/SelSpec.v
+   (Selectors 4 as relations).  Check/C05.v ties the model to /repo on every run. *)
+From Verif Require Import Css.Sel Css.SelSpec Css.SelProofs.
+From Coq Require Import ZArith List.
+Import ListNotations.
 
-Theorem C05_nth_arith : forall a b i : Z, a <> 0 ->
-  (Z.rem (i - b) a = 0 /\ Z.quot (i - b) a >= 0) <-> exists n, 0 <= n /\ i = a * n + b.
+(* ---- an+b: Go's truncating % and / decide "exists n >= 0, i = a*n + b" for all integers *)
+Theorem C05_nth_arith : forall a b i : Z, a <> 0%Z ->
+  (Z.rem (i - b) a = 0 /\ Z.quot (i - b) a >= 0)%Z <-> exists n, (0 <= n)%Z /\ i = (a * n + b)%Z.
 Proof. exact nth_arith. Qed.
 Print Assumptions C05_nth_arith.
+
+(* the code's special paths for a = 0 (simpleNthChildMatch, simpleNthLastChildMatch) agree with the general one *)
+Theorem C05_simple_nth_eq : forall ofType n kids k b, nth_error kids k = Some n ->
+  simple_nth_child_match b ofType n kids k = nth_child_match 0 b false ofType n kids k /\
+  simple_nth_last_child_match b ofType n kids k = nth_child_match 0 b true ofType n kids k.
+Proof. exact simple_nth_eq. Qed.
+Print Assumptions C05_simple_nth_eq.
+
+(* ---- matching: for every tree with the invariants of html.Parse, every selector outside
+   the two stated deviations, every node: the code's answer is the Selectors-4 relation.
+   (type/universal/class/id/attribute operators with the i flag, the four combinators,
+   :nth-*(an+b), :first/last/only-*, :root, :empty, :not/:is/:has, selector lists.) *)
+Theorem C05_matches_spec : forall (d : node) (s : sel) (p : path),
+  dom_wf d -> sel_supported d s ->
+  (matches d s p = true <-> spec_matches d s p).
+Proof. intros d s p Hwf Hs. exact (matches_spec d Hwf s p Hs). Qed.
+Print Assumptions C05_matches_spec.
+
+Theorem C05_matches_group_spec : forall (d : node) (g : list sel) (p : path),
+  dom_wf d -> (forall s, In s g -> sel_supported d s) ->
+  (matches_group d g p = true <-> spec_matches_group d g p).
+Proof. intros d g p Hwf Hs. exact (matches_group_spec d Hwf g p Hs). Qed.
+Print Assumptions C05_matches_group_spec.
+
+(* the full statement (no side condition on the selector) is false for the code: *)
+Definition C05_matches_spec_statement : Prop :=
+  forall (d : node) (s : sel) (p : path), dom_wf d -> (matches d s p = true <-> spec_matches d s p).
+
+(* (1) :has() whose argument has a combinator is evaluated against the whole document,
+   not anchored below the :has element: div:has(section p) in <section><div><p> *)
+Theorem C05_has_relative_refuted :
+  exists d s p, dom_wf d /\ matches d s p = true /\ ~ spec_matches d s p.
+Proof. exact has_relative_refuted. Qed.
+Print Assumptions C05_has_relative_refuted.
+
+(* (2) [a^=v] [a$=v] [a*=v] never match a blank attribute value: [title^=" "] on title="  " *)
+Theorem C05_blank_attr_refuted :
+  exists d s p, dom_wf d /\ matches d s p = false /\ spec_matches d s p.
+Proof. exact blank_attr_refuted. Qed.
+Print Assumptions C05_blank_attr_refuted.
+
+Theorem C05_matches_spec_statement_refuted : ~ C05_matches_spec_statement.
+Proof.
+  intros H. destruct has_relative_refuted as [d [s [p [Hwf [Hm Hn]]]]].
+  apply Hn. apply (H d s p Hwf). exact Hm.
+Qed.
+Print Assumptions C05_matches_spec_statement_refuted.
+
+(* only elements are ever matched (text, comment, doctype and document nodes never) *)
+Theorem C05_matches_only_elements : forall d s p, matches d s p = true -> exists n, element d p n.
+Proof. exact matches_valid. Qed.
+Print Assumptions C05_matches_only_elements.
+
+(* the boolean invariant check run on every dumped tree implies the hypothesis dom_wf *)
+Theorem C05_dom_wfb_sound : forall d, dom_wfb d = true -> dom_wf d.
+Proof. exact dom_wfb_sound. Qed.
+Print Assumptions C05_dom_wfb_sound.
+
+Example C05_matches_spec_inhabited :
+  dom_wf w_doc1 /\ sel_supported w_doc1 (SCombined (STag t_section) CDesc (SCompound [STag t_p; SNth (-1) 1 false false] [])) /\
+  matches w_doc1 (SCombined (STag t_section) CDesc (SCompound [STag t_p; SNth (-1) 1 false false] [])) [0; 0; 0; 0]%nat = true.
+Proof. exact matches_spec_inhabited. Qed.
+
+(* ---- specificity = (ids, classes+attributes+pseudo-classes, types+pseudo-elements),
+   :is/:not/:has weigh as their most specific argument *)
+Theorem C05_specificity_spec : forall s, has_specificity s (specificity s).
+Proof. exact specificity_spec. Qed.
+Print Assumptions C05_specificity_spec.
+
+Theorem C05_specificity_unique : forall s x y, has_specificity s x -> has_specificity s y -> x = y.
+Proof. exact has_specificity_unique. Qed.
+Print Assumptions C05_specificity_unique.
+
+(* Specificity.Less is a strict total order, the lexicographic one *)
+Theorem C05_specificity_order_total :
+  (forall x, spec_less x x = false) /\
+  (forall x y z, spec_less x y = true -> spec_less y z = true -> spec_less x z = true) /\
+  (forall x y, spec_less x y = true \/ x = y \/ spec_less y x = true) /\
+  (forall x y, spec_less x y = true -> spec_less y x = false).
+Proof. exact specificity_order_total. Qed.
+Print Assumptions C05_specificity_order_total.
+
+Theorem C05_specificity_less_lex : forall x y, spec_less x y = true <-> lex_le x y /\ x <> y.
+Proof. exact spec_less_lex. Qed.
+Print Assumptions C05_specificity_less_lex.
